@@ -107,7 +107,11 @@ void Host::RemoveService(const Service::Ptr& service)
 {
 	std::unique_lock<std::mutex> lock(m_ServicesMutex);
 
-	m_Services.erase(service->GetShortName());
+	auto it = m_Services.find(service->GetShortName());
+
+	/* only that very service: a new one of the same name may have taken its place */
+	if (it != m_Services.end() && it->second == service)
+		m_Services.erase(it);
 }
 
 int Host::GetTotalServices() const
